@@ -1094,7 +1094,7 @@ PROP = Prop(
                   "extract/prec.py (precedence constants read from the live modules)"],
     assumptions=["C programs are compiled with gcc -O0; `long long` variables for integer "
                  "environments, `double` for floating-point ones; values small enough not to overflow"],
-    level="partial",
+    level="proof",
     level_text="Lean theorems about the model of CCodeMapper: for all histories of calls on one "
                "mapper the hoisted names are pairwise distinct, every wrapped child is assigned "
                "exactly once, and every name used in an assignment or a returned text is assigned "
